@@ -273,16 +273,89 @@ def t_inlinetmp(fn):
     return new if hit[0] else None
 
 
-MODES = {"inlinetmp": t_inlinetmp, "augexpand": t_augexpand, "elsify": t_elsify, "kwargify": t_kwargify, "rename": t_rename, "ifswap": t_ifswap, "cmpflip": t_cmpflip, "rettemp": t_rettemp}
+def t_retbool(fn):
+    """`return a == b` -> `if a == b: return True` / `return False`"""
+    hit = [0]
+
+    class R(ast.NodeTransformer):
+        def visit_Return(self, n):
+            v = n.value
+            if isinstance(v, ast.Compare) or (isinstance(v, ast.UnaryOp) and isinstance(v.op, ast.Not) and isinstance(v.operand, ast.Compare)):
+                hit[0] += 1
+                i = ast.If(test=v, body=[ast.Return(value=ast.Constant(value=True))], orelse=[])
+                return [ast.copy_location(i, n), ast.copy_location(ast.Return(value=ast.Constant(value=False)), n)]
+            return n
+
+        def visit_FunctionDef(self, n):
+            if n is fn_copy:
+                self.generic_visit(n)
+            return n
+    fn_copy = copy.deepcopy(fn)
+    new = R().visit(fn_copy)
+    return new if hit[0] else None
+
+
+def t_extracttail(fn):
+    """the second half of the function body becomes a new private helper that is called in tail position;
+    returns [new function, helper] (the helper is placed right after the function)"""
+    if has_nested(fn) or len(fn.body) < 3:
+        return None
+    if any(isinstance(n, (ast.Yield, ast.YieldFrom, ast.Global, ast.Nonlocal)) for n in ast.walk(fn)):
+        return None
+    if any(ast.unparse(d).split("(")[0].split(".")[-1] not in ("staticmethod", "classmethod") for d in fn.decorator_list):
+        return None
+    body = fn.body
+    start = 1 if (isinstance(body[0], ast.Expr) and isinstance(body[0].value, ast.Constant) and isinstance(body[0].value.value, str)) else 0
+    cut = start + max(1, (len(body) - start) // 2)
+    head, tail = body[:cut], body[cut:]
+    if not tail or not head[start:]:
+        return None
+    params = [a.arg for a in fn.args.posonlyargs + fn.args.args + fn.args.kwonlyargs]
+    if fn.args.vararg or fn.args.kwarg:
+        return None
+    is_static = any(ast.unparse(d) == "staticmethod" for d in fn.decorator_list)
+    is_cls = any(ast.unparse(d) == "classmethod" for d in fn.decorator_list)
+    defined = set(params)
+    for s_ in head:
+        for n in ast.walk(s_):
+            if isinstance(n, ast.Name) and isinstance(n.ctx, ast.Store):
+                defined.add(n.id)
+            elif isinstance(n, ast.ExceptHandler) and n.name:
+                defined.add(n.name)
+    used = []
+    for s_ in tail:
+        for n in ast.walk(s_):
+            if isinstance(n, ast.Name) and n.id in defined and n.id not in used:
+                used.append(n.id)
+    method = bool(params) and params[0] in ("self", "cls") and not is_static
+    recv = params[0] if method else None
+    args = [u for u in used if u != recv]
+    hname = "_xt_%s" % fn.name.strip("_")
+    hargs = ([recv] if method else []) + args
+    helper = ast.FunctionDef(name=hname, args=ast.arguments(posonlyargs=[], args=[ast.arg(arg=a) for a in hargs], kwonlyargs=[], kw_defaults=[], defaults=[]),
+                             body=copy.deepcopy(tail), decorator_list=[ast.Name(id="classmethod", ctx=ast.Load())] if is_cls else ([ast.Name(id="staticmethod", ctx=ast.Load())] if is_static else []),
+                             returns=None, type_comment=None, type_params=[])
+    callee = ast.Attribute(value=ast.Name(id=recv, ctx=ast.Load()), attr=hname, ctx=ast.Load()) if method else ast.Name(id=hname, ctx=ast.Load())
+    if is_static:
+        return None  # a static method cannot name its class here
+    call = ast.Call(func=callee, args=[ast.Name(id=a, ctx=ast.Load()) for a in args], keywords=[])
+    new = copy.deepcopy(fn)
+    new.body = copy.deepcopy(head) + [ast.Return(value=call)]
+    return [new, helper]
+
+
+MODES = {"retbool": t_retbool, "extracttail": t_extracttail, "inlinetmp": t_inlinetmp, "augexpand": t_augexpand, "elsify": t_elsify, "kwargify": t_kwargify, "rename": t_rename, "ifswap": t_ifswap, "cmpflip": t_cmpflip, "rettemp": t_rettemp}
 
 
 def splice(src, fn, new):
-    ast.fix_missing_locations(new)
     lines = src.splitlines(keepends=True)
     start = (fn.decorator_list[0].lineno if fn.decorator_list else fn.lineno) - 1
     end = fn.end_lineno
     indent = len(lines[fn.lineno - 1]) - len(lines[fn.lineno - 1].lstrip())
-    text = textwrap.indent(ast.unparse(new), " " * indent) + "\n"
+    nodes = new if isinstance(new, list) else [new]
+    for n_ in nodes:
+        ast.fix_missing_locations(n_)
+    text = ("\n\n").join(textwrap.indent(ast.unparse(n_), " " * indent) for n_ in nodes) + "\n"
     return "".join(lines[:start]) + text + "".join(lines[end:])
 
 
